@@ -132,7 +132,7 @@ Print Assumptions C04_complete_checker_sound.
 Check (eq_refl : hdT [] = T_Eof).
 
 (** Instance: the generated grammar program against the documented grammar (doc_rules_must = syntax.md + rule comments minus
-    the rejects:* deltas).  [comp_covered] = 63 (nonterminal, function) pairs.  For the 55 nonterminals that cannot reach `If`
+    the rejects:* deltas).  [comp_covered] = 64 (nonterminal, function) pairs.  For the 55 nonterminals that cannot reach `If`
     ([comp_iffree]) the statement is about the documented grammar itself: EVERY word w of the nonterminal, every rest of
     input [tail] whose first token (or the end of input) is in the FOLLOW set [comp_followers] (computed; validated), every
     parser state whose upcoming tokens are  w ++ tail : the function returns true, has consumed exactly w and recorded NO
@@ -148,11 +148,14 @@ Theorem C04_complete_all : forall m f, In (m, f) comp_covered -> In m comp_iffre
     end.
 Proof. exact comp_complete_doc. Qed.
 Print Assumptions C04_complete_all.
-(** For the other 8 covered nonterminals (they contain statements) the same holds for [comp_grammar] = the documented grammar
-    with the rule of `If` emptied, i.e. for programs without `if` statements: `if c then if d then X else Y` makes the
-    documented grammar ambiguous (dangling else), so "consumes exactly a word of If, whatever admissible token follows" is
-    false for the follower `else`.  [comp_grammar] only has fewer words ([C04_complete_iffree_sub]). *)
-Theorem C04_complete_iffree : forall m f, In (m, f) comp_covered ->
+(** For the other 9 covered nonterminals (If and what contains statements) the same holds for [comp_grammar] = the
+    documented grammar with the rule of `If` RESTRICTED: `if c then if d then X else Y` makes the documented grammar
+    ambiguous (dangling else), so "consumes exactly a word of If, whatever admissible token follows" is false for the
+    follower `else`.  In [comp_grammar] an `else` may follow a then-branch only if that branch is a block { .. } or a CLOSED
+    statement (def, class, defm, defvar, dump, assert, include, defset, multiclass, let / foreach with a block body), i.e.
+    one that cannot end in an else-less `if`; everything else about `if` is as documented.  [comp_grammar] only has fewer
+    words ([C04_complete_restricted_if_sub], by the validated inclusion test sub_grammar_ok). *)
+Theorem C04_complete_restricted_if : forall m f, In (m, f) comp_covered ->
   forall w, derives comp_grammar m w -> forall tail, In (hdT tail) (comp_followers m) ->
   forall s, Toks s (w ++ tail) -> after_err s = false ->
   exists n0, forall n, (n0 <= n)%nat ->
@@ -162,10 +165,10 @@ Theorem C04_complete_iffree : forall m f, In (m, f) comp_covered ->
     | _ => False
     end.
 Proof. exact comp_complete_model. Qed.
-Print Assumptions C04_complete_iffree.
+Print Assumptions C04_complete_restricted_if.
 (** WHOLE FILES: a text whose token sequence (no leading trivia, no lexical error token) is a sentence of the documented
-    grammar without `if` statements is parsed by the parser model with ZERO errors - or the model panics (excluded by C02).
-    Together with C04_errors_or_sentence this is the property C04 for if-free programs, on the model. *)
+    grammar with the restricted `if` is parsed by the parser model with ZERO errors - or the model panics (excluded by C02).
+    Together with C04_errors_or_sentence this is the property C04, on the model, up to the dangling-else restriction. *)
 Theorem C04_complete_parse : forall txt w, Toks (p_new txt) w -> derives comp_grammar nt_SourceFile w ->
   exists n0, forall n, (n0 <= n)%nat ->
     parse_with n grammar_prog grammar_entry txt = ParsePanic \/
@@ -175,8 +178,13 @@ Print Assumptions C04_complete_parse.
 Example C04_complete_parse_nonvacuous :
   Toks (p_new comp_example_text) ([T_Def] ++ [T_Id] ++ [T_Semi]) /\ derives comp_grammar nt_SourceFile ([T_Def] ++ [T_Id] ++ [T_Semi]).
 Proof. exact (conj comp_example_toks comp_example_sentence). Qed.
-Theorem C04_complete_iffree_sub : forall n w, derives comp_grammar n w -> derives doc_rules_must n w.
+Theorem C04_complete_restricted_if_sub : forall n w, derives comp_grammar n w -> derives doc_rules_must (comp_phi n) w.
 Proof. exact comp_grammar_sub. Qed.
+(** [comp_phi] is the identity on the documented nonterminals and maps the three added ones (ClosedStatement, LetBlock,
+    ForeachBlock) to Statement, Let, Foreach *)
+Check comp_phi_id : forallb (fun n => Nat.eqb (comp_phi n) n) (seq 0 (List.length doc_rules_must)) = true.
+Example C04_complete_restricted_if_rule : nth_error comp_grammar (nt_of "If"%string) = Some (if_restrict (rule_of "If"%string)).
+Proof. vm_compute. reflexivity. Qed.
 (** precisely what is covered *)
 Example C04_complete_covered_doc : same_strings comp_covered_doc_names
   ["Include"; "String"; "Assert"; "Value"; "InnerValue"; "SimpleValue"; "Integer"; "Code"; "Boolean"; "Uninitialized"; "Bits"; "List";
@@ -187,9 +195,10 @@ Example C04_complete_covered_doc : same_strings comp_covered_doc_names
    "ForeachIteratorInit"; "LetList"; "LetItem"]%string = true.
 Proof. vm_compute. reflexivity. Qed.
 Example C04_complete_covered_iffree_only : same_strings comp_covered_iffree_only_names
-  ["SourceFile"; "StatementList"; "Statement"; "Defset"; "Foreach"; "Let"; "MultiClass"; "MultiClassStatement"]%string = true.
+  ["SourceFile"; "StatementList"; "Statement"; "Defset"; "Foreach"; "If"; "Let"; "MultiClass"; "MultiClassStatement"]%string = true.
 Proof. vm_compute. reflexivity. Qed.
-(** NOT covered: If (ambiguity above); the helper rules no function parses are unfolded inside the others.  Followers, e.g.: *)
+(** NOT covered: an `else` after a bare then-branch that is an if / let / foreach statement (ambiguity above); the helper
+    rules no function parses are unfolded inside the others.  Followers, e.g.: *)
 Example C04_complete_followers_value :
   same_kinds (match nt_index "Value"%string with Some m => comp_followers m | None => [] end)
   [T_Then; T_In; T_Equal; T_Greater; T_Semi; T_DotDotDot; T_Minus; T_IntVal; T_BinaryIntVal; T_RBrace; T_RSquare; T_Colon; T_Comma; T_RParen] = true.
